@@ -25,6 +25,7 @@ import (
 	"runtime/pprof"
 	"sort"
 	"strings"
+	"sync/atomic"
 	"time"
 
 	"com.tuntun.rangers/node/src/common"
@@ -99,6 +100,14 @@ type recorder struct {
 	log       []wrec
 	on        bool
 	stateHave content // exact mirror of the state store (all its writes pass through the wrapper)
+	gate      *gateT  // parks one Get of one key after its store read (lock-free readers vs a reorg)
+}
+
+type gateT struct {
+	key     string // prefix + key
+	armed   int32
+	reached chan struct{}
+	release chan struct{}
 }
 
 func (r *recorder) add(w wrec) {
@@ -133,7 +142,14 @@ func (d *recDB) Delete(k []byte) error {
 	d.r.add(wrec{d.store, []kv{{d.pfx + string(k), nil, true}}})
 	return d.inner.Delete(k)
 }
-func (d *recDB) Get(k []byte) ([]byte, error)   { return d.inner.Get(k) }
+func (d *recDB) Get(k []byte) ([]byte, error) {
+	v, err := d.inner.Get(k)
+	if g := d.r.gate; g != nil && g.key == d.pfx+string(k) && atomic.CompareAndSwapInt32(&g.armed, 1, 0) {
+		g.reached <- struct{}{} // the value is read; the reader has not returned (nor touched any cache) yet
+		<-g.release
+	}
+	return v, err
+}
 func (d *recDB) Has(k []byte) (bool, error)     { return d.inner.Has(k) }
 func (d *recDB) Close()                         {}
 func (d *recDB) NewIterator() iterator.Iterator { return d.inner.NewIterator() }
@@ -680,6 +696,113 @@ func (w *world) genTieHistory(r *hx.Rng, hi int) *history {
 	return h
 }
 
+// ---------- lock-free readers against a reorg (gated schedules) ----------
+// QueryBlockHeaderByHeight / GetBlockHash / QueryBlockByHash are called without the chain lock (RPC, EVM
+// BLOCKHASH). One reader is parked right after its store read - before it returns and before anything it
+// might do with the value - while the main goroutine replaces the block at that height; then it is
+// released and the invariant is evaluated through the cached and the uncached read paths.
+//
+//	cold:  g-A, restart (buildCache does not preload the head's height), reader of height 1, deliver A2
+//	warm:  the same without the restart (the reader is served from topBlocks and never parks)
+//	deep:  a chain longer than the topBlocks lru (100); reader of an evicted height; a heavy sibling there
+func (w *world) gatedReaders(res *hx.Result) {
+	type variant struct {
+		name   string
+		length int  // blocks on the first branch
+		at     int  // height whose block is replaced (parent = block at-1)
+		cold   bool // restart before the reader runs
+		reader int  // 0 header(h,true) 1 header(h,false) 2 GetBlockHash 3 QueryBlockByHash(old block)
+	}
+	vs := []variant{{"cold-header-cached", 1, 1, true, 0}, {"cold-blockhash", 2, 1, true, 2}, {"cold-header-uncached", 1, 1, true, 1},
+		{"cold-byhash", 1, 1, true, 3}, {"warm-header-cached", 2, 2, false, 0}, {"cold-mid-header-cached", 3, 3, true, 0}, {"deep-header-cached", 103, 2, false, 0}, {"deep-blockhash", 103, 3, false, 2}}
+	for vi, v := range vs {
+		h := &history{byHash: map[common.Hash]int{}, txIdx: map[common.Hash]int{}, noFork: true}
+		h.blocks = append(h.blocks, &blk{hdr: w.genesis, parent: -1})
+		add := func(p int, qn uint64, pv int64) int {
+			ph := h.blocks[p].hdr
+			b := w.build(ph, ph.Height+1, qn, pv, byte(len(h.blocks)), nil)
+			raw, _ := types.MarshalBlock(b)
+			h.byHash[b.Header.Hash] = len(h.blocks)
+			h.blocks = append(h.blocks, &blk{hdr: b.Header, raw: raw, parent: p})
+			if b.Header.Height > h.maxH {
+				h.maxH = b.Header.Height
+			}
+			return len(h.blocks) - 1
+		}
+		p := 0
+		for i := 0; i < v.length; i++ {
+			p = add(p, 1, 1)
+		}
+		sib := add(v.at-1, uint64(v.length)+5, 2) // heavier than the whole first branch
+		h.number(w)
+		c := &ctx{w: w, h: h, res: res, seq: fmt.Sprintf("gated readers (%s): first branch of %d blocks above genesis, heavier sibling at height %d", v.name, v.length, v.at)}
+		w.setStores(w.g0, w.g1, content{})
+		if err := w.restart(); err != nil {
+			panic(err)
+		}
+		ch := core.GetBlockChain()
+		deliver := func(i int) {
+			blk, _ := types.UnMarshalBlock(h.blocks[i].raw)
+			ch.AddBlockOnChain(blk)
+		}
+		for i := 1; i <= v.length; i++ {
+			deliver(i)
+		}
+		if v.cold {
+			if err := w.restart(); err != nil {
+				panic(err)
+			}
+			ch = core.GetBlockChain()
+		}
+		g := &gateT{armed: 1, reached: make(chan struct{}), release: make(chan struct{})}
+		ht := uint64(v.at)
+		if v.reader == 3 {
+			g.key = "block" + string(h.blocks[v.at].hdr.Hash.Bytes())
+		} else {
+			key := make([]byte, 8)
+			binary.BigEndian.PutUint64(key, ht)
+			g.key = "height" + string(key)
+		}
+		w.rec.gate = g
+		done := make(chan struct{})
+		go func() {
+			defer close(done)
+			defer func() { recover() }()
+			switch v.reader {
+			case 0:
+				core.VerifBCHeightHeader(ht, true)
+			case 1:
+				core.VerifBCHeightHeader(ht, false)
+			case 2:
+				ch.GetBlockHash(ht)
+			case 3:
+				ch.QueryBlockByHash(h.blocks[v.at].hdr.Hash)
+			}
+		}()
+		parked := false
+		select {
+		case <-g.reached:
+			parked = true
+		case <-done:
+		case <-time.After(5 * time.Second):
+		}
+		deliver(sib) // the reorg: every block from height v.at up is removed, the sibling inserted
+		if parked {
+			g.release <- struct{}{}
+		}
+		atomic.StoreInt32(&g.armed, 0)
+		<-done
+		w.rec.gate = nil
+		where := fmt.Sprintf("%s; reader parked after its store read: %v; then the sibling delivered, the reader released", c.seq, parked)
+		if top := ch.TopBlock(); top.Hash != h.blocks[sib].hdr.Hash {
+			res.Violate("C05/gated:reorg-did-not-happen", "the heavier sibling did not become the head", where)
+		}
+		c.checkInv("gated-"+v.name, where)
+		c.observe("gated-" + v.name)
+		res.Count("gated-reader:"+v.name, fmt.Sprintf("g%d", vi), parked)
+	}
+}
+
 // scripted history for the fork switch: local chain g-x (QN 5); the peer's chain g-f1-f2-f3 (QN 1,2,6);
 // c (child of f1, QN 4) arrived by broadcast before and waits as an orphan. The switch removes x, adds
 // f1, whose callback pulls c in; f2 is lighter than c and refused; the switch stops with head c (QN 4).
@@ -843,6 +966,25 @@ func (c *ctx) checkInv(where string, detail interface{}) bool {
 		hd := ch.QueryBlock(ht)
 		hh := core.VerifBCHeightHeader(ht, true)
 		want, has := chain[ht]
+		// the cached read paths (topBlocks first) against the store itself
+		hu := core.VerifBCHeightHeader(ht, false)
+		gh := ch.GetBlockHash(ht)
+		var uh, chh, qh common.Hash
+		if hu != nil {
+			uh = hu.Hash
+		}
+		if hh != nil {
+			chh = hh.Hash
+		}
+		if hd != nil {
+			qh = hd.Header.Hash
+		}
+		if chh != uh || gh != uh || (hd != nil && qh != uh) {
+			ok = false
+			c.res.Violate("C05/inv-height-index:cached-read-stale", fmt.Sprintf("height %d: the height store holds block %d, QueryBlockHeaderByHeight(h,true) answers %d, GetBlockHash %d, QueryBlock %d (%s)",
+				ht, c.h.idOfHash(uh), c.h.idOfHash(chh), c.h.idOfHash(gh), c.h.idOfHash(qh), where), detail)
+			continue
+		}
 		switch {
 		case has && (hh == nil || hh.Hash != want):
 			bad("height-index", fmt.Sprintf("height %d does not return the chain's block %d", ht, c.h.idOfHash(want)))
@@ -1613,6 +1755,7 @@ func main() {
 		term, js := w.genesisPass(res)
 		cs.Add(term, js)
 	}
+	w.gatedReaders(res)
 	{
 		h := w.genCacheHistory(100000)
 		c := &ctx{w: w, h: h, res: res}
